@@ -107,6 +107,14 @@ def gen(rng, tier):
         es = [gen_eds(rng, charonly=True, connected=True) for _ in range(rng.randrange(0, 4))]
         cases.append({"k": "doc", "es": es, "p": rng.random() < 0.7, "l": rng.random() < 0.7,
                       "st": rng.random() < 0.5, "indent": rng.choice([False, True, 2])})
+    # a constant that is the empty string (choices from a generator of their own)
+    import random
+    lrng = random.Random("c03-empty-constant-" + tier)
+    for i in range(12 if tier == "quick" else 120):
+        e = gen_eds(lrng, charonly=True, connected=True)
+        e["nodes"][lrng.randrange(len(e["nodes"]))]["carg"] = ""
+        cases.append({"k": "eds", "e": e, "p": lrng.random() < 0.7, "l": lrng.random() < 0.7,
+                      "st": lrng.random() < 0.5, "indent": lrng.choice([False, True, 2, None])})
     for t in TEXTS:
         cases.append({"k": "text", "text": t})
     for i in range(n // 3):
